@@ -235,9 +235,10 @@ def spread_schedules(run, bound, limit, rng=None):
 
 
 class Scheduler:
-    def __init__(self, chooser, granularity="op", max_yields=200000):
+    def __init__(self, chooser, granularity="op", max_yields=200000, trace_files=None):
         self.chooser = chooser
         self.gran = granularity
+        self.trace_files = trace_files  # restrict line/opcode yield points to these labrea files (focus mode)
         self.cv = threading.Condition()
         self.current = None
         self.threads = []
@@ -302,7 +303,7 @@ class Scheduler:
     # -- tracing ---------------------------------------------------------------
     def _tracer(self, i):
         opcode = self.gran == "opcode"
-        files = SHARED_STATE_FILES if opcode else LINE_FILES
+        files = self.trace_files or (SHARED_STATE_FILES if opcode else LINE_FILES)
 
         def local(frame, event, arg):
             if event == "line" and not opcode:
